@@ -105,6 +105,19 @@ Proof.
   split; intros E; [injection E as E; exact E | rewrite E; reflexivity].
 Qed.
 
+(** the number conversion applied to a function's receiver never changes
+    whether it is null *)
+Lemma is_nil_convert_number : forall v, is_nil (convert_number v) = is_nil v.
+Proof.
+  intros v. unfold convert_number. destruct (convert_number_check v) as [was d] eqn:E.
+  destruct was; [|reflexivity].
+  rewrite !is_nil_nil_like. cbn [nil_like].
+  destruct v as [ |nm b|k nm z|w nm f|nm s|d0|tg|t n xs|t xs|kt vt n kvs|fs|n|n]; try reflexivity;
+    try (exfalso; revert E; unfold convert_number_check, deref1, rkind; cbn;
+         repeat match goal with |- context [if ?b then _ else _] => destruct b end; cbn; congruence).
+  destruct tg as [g|]; [reflexivity|vm_compute in E; discriminate E].
+Qed.
+
 (** in particular an empty but non-nil array or object, "", 0 and false are
     not null *)
 Corollary empty_values_are_not_null :
@@ -469,6 +482,31 @@ Proof.
   - rewrite (eval_call_no_args k inv _ us cur orig _ T6 eq_refl). exact H6.
 Qed.
 
+(** IsNull / IsNotNull in a query decide on the current value itself … *)
+Corollary isnull_in_queries k inv us cur orig :
+  eval uni eng (S k) (NFunc (Func inv (bs "IsNull") [] us)) cur orig = Ok (vbool (nil_like cur)) /\
+  eval uni eng (S k) (NFunc (Func inv (bs "IsNotNull") [] us)) cur orig = Ok (vbool (negb (nil_like cur))).
+Proof.
+  destruct (predicates_in_queries k inv us cur orig) as [H1 [H2 _]].
+  rewrite H1, H2, is_nil_convert_number, is_nil_nil_like. split; reflexivity.
+Qed.
+
+(** … whereas IsEmpty sees a string that spells a number as that number
+    (opFunction.Do converts the receiver first): "0" and "0.00" are empty *)
+Lemma isempty_numeral_string k inv us nm s d orig :
+  dec_of_string s = Some d ->
+  eval uni eng (S k) (NFunc (Func inv (bs "IsEmpty") [] us)) (VStr nm s) orig = Ok (vbool (coef d =? 0)).
+Proof.
+  intros Hd. destruct (predicates_in_queries k inv us (VStr nm s) orig) as [_ [_ [H _]]]. rewrite H.
+  assert (Hc : convert_number (VStr nm s) = VDec d).
+  { unfold convert_number, convert_number_check.
+    assert (Hv : (if is_empty_value (value_of (VStr nm s)) then value_of (VStr nm s)
+                  else deref1 (value_of (VStr nm s))) = value_of (VStr nm s))
+      by (destruct (is_empty_value _); reflexivity).
+    rewrite Hv. cbn. rewrite Hd. reflexivity. }
+  rewrite Hc. reflexivity.
+Qed.
+
 Lemma convert_number_nil : convert_number VNil = VNil.
 Proof. reflexivity. Qed.
 
@@ -590,7 +628,17 @@ Example ex_empty_vs_null :
   run "$.x?.IsNotNullOrEmpty()" doc_x = Some (Ok (vbool true)).
 Proof. repeat split; vm_compute; reflexivity. Qed.
 
+(** the receiver of a function is number-converted first: a string spelling
+    zero is "empty" in a query, any other non-empty string is not *)
+Example ex_numeral_string_is_empty :
+  run "$.s.IsEmpty()" (VMap KtStr EAny false [(VStr false (bs "s"), VStr false (bs "0.00"))]) = Some (Ok (vbool true)) /\
+  run "$.s.IsEmpty()" (VMap KtStr EAny false [(VStr false (bs "s"), VStr false (bs "x"))]) = Some (Ok (vbool false)) /\
+  run "$.s.IsEmpty()" (VMap KtStr EAny false [(VStr false (bs "s"), VStr false [])]) = Some (Ok (vbool true)).
+Proof. repeat split; vm_compute; reflexivity. Qed.
+
 Print Assumptions predicates_by_name.
+Print Assumptions is_nil_convert_number.
+Print Assumptions isnull_in_queries.
 Print Assumptions negations_exact.
 Print Assumptions is_nil_nil_like.
 Print Assumptions is_null_table.
